@@ -245,6 +245,11 @@ def r1_index(ctx):
         and len(ret.args) == 2 and isinstance(ret.args[0], ast.Starred) and ast.unparse(ret.args[1]) == "box"
     ctx.ob("R1.call", GEO, f.name, ast.unparse(ret), okc,
            "the gathered coordinates are passed in column order followed by the box", f.lineno)
+    # box selection as a whole: explicit box wins, the structure's box is the fallback, no box when not periodic
+    check_spec(ctx, "R1.box-selection", GEO, "_call_non_index_function",
+               "(atoms.box if box is None else box) if periodic else None",
+               "periodic=True uses the explicitly given box and falls back to atoms.box only when none is given; periodic=False uses no box",
+               var="box")
     # non periodic => box None
     okn = False
     for st in stmts(f):
@@ -961,6 +966,7 @@ MUTANTS = [
     Mutant("index-arity", GEO, "_call_non_index_function(distance, 2,", "_call_non_index_function(distance, 3,", "R1.index-arity"),
     Mutant("gather-column", GEO, "indices[:, i], :]", "indices[:, 0], :]", "R1.gather"),
     Mutant("nonperiodic-keeps-box", GEO, "    else:\n        box = None\n", "    else:\n        pass\n", "R1.nonperiodic-box"),
+    Mutant("explicit-box-overridden", GEO, "        if box is None:\n            if isinstance(atoms, (AtomArray, AtomArrayStack)):\n                box = atoms.box\n            else:\n                raise ValueError(\n                    \"If `atoms` are coordinates, the box must be set explicitly\"\n                )", "        if isinstance(atoms, (AtomArray, AtomArrayStack)):\n            box = atoms.box\n        elif box is None:\n            raise ValueError(\n                \"If `atoms` are coordinates, the box must be set explicitly\"\n            )", "R1.box-selection"),
     Mutant("displacement-sign", GEO, "diff = -(v1 - v2)", "diff = v1 - v2", "R2.displacement-sign"),
     Mutant("angle-not-normalised", GEO, "    norm_vector(v1)\n    norm_vector(v2)\n    return np.arccos", "    norm_vector(v1)\n    return np.arccos", "R2.angle-normalised"),
     Mutant("angle-vertex", GEO, "v2 = displacement(atoms3, atoms2, box)", "v2 = displacement(atoms2, atoms3, box)", "R2.angle-vertex"),
